@@ -398,6 +398,7 @@ class Gen:
             owner = I.owner_of(items, item)
             cg = set(re.findall(r"[<,]\s*(\w+)\s*(?=[:,>])", (owner.header_raw if owner else "") + " " + item.sig.split("(")[0]))
             ap("R12-inline", I.rule_inline, set(self.inline[key]), I.file_fns(items), item, owner, cg, inlined)
+        ap("R13-H", R.rule_thread_handoff)
         ap("R-spawn", rule_spawn)
         ap("R-path", R.rule_paths)
         if spec.get("record_emit"):
@@ -422,6 +423,7 @@ class Gen:
         ap("R8-filter", R.rule_option_filter)
         ap("R8-map", R.rule_option_map)
         ap("R8-closures", R.rule_no_opaque_closures)
+        ap("R4-try", R.rule_async_block_try)
         # framework code must not panic, except where the contract says so (capacity 0 in spawn, the deliberate deadlock panic)
         ap("R8-panic", R.rule_panics, bool(spec.get("no_panic")), spec.get("panics", "forbid"))
         ap("R4-val", await_values)
